@@ -26,6 +26,18 @@ func tierProfile(p Profile, tier string) Profile {
 	return p
 }
 
+// crashTierProfile: checks that enumerate every crash state of a schedule
+// (and re-run from each) stay with short streams also in the thorough tier:
+// their cost is quadratic in the number of file-system operations.
+func crashTierProfile(p Profile, tier string) Profile {
+	if tier == "thorough" {
+		p.MaxProcs += 1
+		p.MaxItems += 1
+		p.LongStreams = []int{5}
+	}
+	return p
+}
+
 // flowOracle: the common "result is a function of the graph" check.
 func flowOracle(inc *Inc, ex *Expect) Verdict {
 	s := inc.Sim
